@@ -86,6 +86,13 @@ func IsNoReturnCall(in ssa.Instruction) bool {
 	if !ok {
 		return false
 	}
+	// only statically named callees can be in the list; dynamic callees are
+	// not rendered here (rendering may itself need the pruned CFG)
+	if !c.Call.IsInvoke() {
+		if _, isFn := c.Call.Value.(*ssa.Function); !isFn {
+			return false
+		}
+	}
 	n := calleeName(&c.Call)
 	for _, x := range noReturn {
 		if n == x {
@@ -432,4 +439,50 @@ func lastStore(b *ssa.BasicBlock, from int, al *ssa.Alloc) ssa.Value {
 		from = len(b.Instrs)
 	}
 	return nil
+}
+
+// ReachableIn computes the functions reachable from the entry functions
+// through static calls, closures and function values referenced in operands,
+// restricted to functions for which keep returns true. Dynamic calls are not
+// followed; a function whose value is taken in a reachable function counts as
+// reachable (it may be called later through the stored value).
+func ReachableIn(entries []*ssa.Function, keep func(*ssa.Function) bool) map[*ssa.Function]bool {
+	seen := map[*ssa.Function]bool{}
+	var visit func(f *ssa.Function)
+	visit = func(f *ssa.Function) {
+		if f == nil || seen[f] || !keep(f) {
+			return
+		}
+		seen[f] = true
+		for _, a := range f.AnonFuncs {
+			visit(a)
+		}
+		for _, b := range f.Blocks {
+			for _, in := range b.Instrs {
+				var ops []*ssa.Value
+				for _, op := range in.Operands(ops) {
+					if *op == nil {
+						continue
+					}
+					switch v := (*op).(type) {
+					case *ssa.Function:
+						visit(v)
+					case *ssa.MakeClosure:
+						if fn, ok := v.Fn.(*ssa.Function); ok {
+							visit(fn)
+						}
+					}
+				}
+				if c, ok := in.(ssa.CallInstruction); ok {
+					if callee := c.Common().StaticCallee(); callee != nil {
+						visit(callee)
+					}
+				}
+			}
+		}
+	}
+	for _, e := range entries {
+		visit(e)
+	}
+	return seen
 }
